@@ -186,7 +186,7 @@ func init() {
 				Thorough: grid([]string{"M", "P"}, []int{3, 4, 5, 8, 13, 16}, []int{1, 2, 3, 4})},
 			{Name: "C02_cycle", Expect: []string{"end", "return-value-equal", "executed-pcs-equal"},
 				Quick:    grid([]string{"M", "P", "n"}, []int{3, 4, 5}, []int{1, 2}, []int{1, 2}),
-				Thorough: append(grid([]string{"M", "P", "n"}, []int{3, 4, 5, 8}, []int{1, 2, 3}, []int{1, 2}), grid([]string{"M", "P", "n"}, []int{3, 4}, []int{1, 2}, []int{3})...)},
+				Thorough: append(grid([]string{"M", "P", "n"}, []int{3, 4, 5, 8}, []int{1, 2, 3}, []int{1, 2}), Params{"M": 3, "P": 2, "n": 3})},
 			// three warriors with the task step restricted to DAT / NOP / SPL
 			// (scheduling does not look at what a task does beyond its queue)
 			{Name: "C02_cycle3", Expect: []string{"end", "return-value-equal"},
@@ -197,9 +197,11 @@ func init() {
 				Thorough: []Params{{"M": 3, "P": 1, "n": 2}, {"M": 4, "P": 2, "n": 3}}},
 			{Name: "C02_run", Expect: []string{"end", "result-is-alive-flag"}, TerminationClaim: true,
 				Quick:    grid([]string{"M", "P", "n", "maxCycles"}, []int{3}, []int{1, 2}, []int{1, 2}, []int{1, 2, 3}),
-				Thorough: grid([]string{"M", "P", "n", "maxCycles"}, []int{3, 4}, []int{1, 2}, []int{1, 2, 3}, []int{1, 2, 3, 4, 5})},
+				Thorough: append(append(grid([]string{"M", "P", "n", "maxCycles"}, []int{3, 4}, []int{1, 2}, []int{1}, []int{1, 2, 3, 4, 5}),
+					grid([]string{"M", "P", "n", "maxCycles"}, []int{3, 4}, []int{1, 2}, []int{2}, []int{1, 2, 3})...),
+					grid([]string{"M", "P", "n", "maxCycles"}, []int{3, 4}, []int{1, 2}, []int{3}, []int{1})...)},
 		},
-		Outside: []string{"more than 3 warriors (2 in the quick tier); cycle limits above 5 in the Run-vs-stepping harness (the cycle harness is inductive: arbitrary cycle count and limit)", "the task step itself (C01)"},
+		Outside: []string{"more than 3 warriors (2 in the quick tier); in the Run-vs-stepping harness cycle limits above 5 with one warrior, above 3 with two, above 1 with three (the cycle harness is inductive: arbitrary cycle count and limit)", "the task step itself (C01)"},
 	})
 
 	Properties = append(Properties, &PropertySpec{
